@@ -28,7 +28,12 @@ def coq_case(line):
 
 def main(tier, seed, replay):
     res = L.Result(PROP, tier, seed)
+    gen_ok, gen_log = L.regenerate()   # Gen/Builders.v from /repo's current tile.go (MerkleTreeLeaf)
     ok, cov = L.proof_stage(res, PROP, PROP_V, thorough=(tier == "thorough"))
+    cov["generated_from_source"] = {"files": list(L.GENERATED), "ok": gen_ok, "log": gen_log[-500:]}
+    if not gen_ok:
+        p = L.write_replay(PROP, "translation.txt", "the Go source could not be translated (tie by translation broken):\n" + gen_log)
+        res.violation(p, "translation of the Go source failed", no_input=True)
     hexe, hlog = L.build_harness("codec")
     if hexe is None:
         p = L.write_replay(PROP, "harness_build.txt", "the correspondence harness no longer compiles against /repo's working tree\n" + hlog[-6000:])
